@@ -76,7 +76,10 @@ def carried_verbatim(t: t.Any) -> bool:
     if isinstance(t, str):
         t = refs.forwardref(t)
     t = inspection.unwrap(t)
-    if isinstance(t, refs.ForwardRef):
+    # (A reference may name an alias whose value is a reference in turn.)
+    for _ in range(8):
+        if not isinstance(t, refs.ForwardRef):
+            break
         try:
             t = inspection.unwrap(refs.evaluate(t))
         except Exception:  # noqa: BLE001 - unresolvable: the routines will say so.
